@@ -87,7 +87,7 @@ def build_dataset(rng, fam, tmp, tag, *, variant=0):
     return d, added
 
 
-def write(ds, path, int_connectivity=True, small_edge_face_fill=False):
+def write(ds, path, int_connectivity=True, small_edge_face_fill=False, narrow=False):
     enc = {}
     for v in ds.variables:
         a = ds[v]
@@ -102,6 +102,28 @@ def write(ds, path, int_connectivity=True, small_edge_face_fill=False):
             if str(v) == CONN['edge_face'] and small_edge_face_fill:
                 # a fill value just above the face numbers (and below the number of edges): no face has that number
                 enc[v]['_FillValue'] = numpy.int32(ds.sizes['nMesh2_face'] + 2)
+            if narrow:
+                # tables stored in the narrowest integers that hold the numbers, with a negative fill value (small meshes are
+                # written this way to save space); the all-nines fill of the clip does not fit such a type
+                top = max(ds.sizes[x] for x in ds[v].dims) + 2
+                enc[v] = ({'dtype': 'int8', '_FillValue': numpy.int8(-99)} if top < 120
+                          else {'dtype': 'int16', '_FillValue': numpy.int16(-999)})
+    if narrow:
+        # integer tables carrying their own _FillValue attribute: the same, in the narrow type
+        ds = ds.copy()
+        for v in list(ds.variables):
+            a = ds[v]
+            if str(v) in CONN.values() and a.dtype.kind == 'i':
+                top = max(ds.sizes[x] for x in a.dims) + 2
+                nt, nf = (numpy.int8, -99) if top < 120 else (numpy.int16, -999)
+                vals = a.values
+                attrs = dict(a.attrs)
+                if '_FillValue' in attrs:
+                    vals = numpy.where(vals == attrs['_FillValue'], nf, vals)
+                    attrs['_FillValue'] = nt(nf)
+                if 'start_index' in attrs:
+                    attrs['start_index'] = nt(attrs['start_index'])
+                ds[v] = (a.dims, vals.astype(nt), attrs)
     with warnings.catch_warnings():
         warnings.simplefilter('ignore')
         ds.to_netcdf(path, encoding=enc)
@@ -169,9 +191,10 @@ def flows(ctx, n_ds, quick):
         src = os.path.join(tmp, f'src_{n}.nc')
         int_conn = rng.random() < 0.6
         small_fill = fam == 'ugrid' and (n // len(gen.FAMILIES)) % 2 == 1
-        if small_fill:
+        narrow = fam == 'ugrid' and (n // len(gen.FAMILIES)) % 4 == 2
+        if small_fill or narrow:
             int_conn = True
-        write(d.ds, src, int_conn, small_fill)
+        write(d.ds, src, int_conn, small_fill, narrow)
         raw_mode = rng.random() < 0.25 or ((n // len(gen.FAMILIES)) % 3 == (0 if fam == 'ugrid' else 1))          # opened with mask_and_scale=False: integer fill attributes stay attributes
         open_kw = {'mask_and_scale': False} if raw_mode else {}
         with warnings.catch_warnings():
@@ -231,7 +254,7 @@ def flows(ctx, n_ds, quick):
                     mask.load()
                     second = other_data(d.ds, added)
                     spath = os.path.join(tmp, f'second_{n}_{len(out)}.nc')
-                    write(second, spath, int_conn, small_fill)
+                    write(second, spath, int_conn, small_fill, narrow)
                     target = emsarray.open_dataset(spath, **open_kw)
                     target.load()
                     if n % 2 == 0:
